@@ -196,6 +196,24 @@ def obligations(tier, seed):
                            'every mul_mod call meets mul_mod\'s precondition and mul_mod is replaced by its EXACT contract (C12.exact.mul_mod); base %= n does not divide by zero; '
                            'terminates (decreases exp). Arithmetic by lemmas pm_entry, pm_step, pm_exit (Lean)',
                   functions_under_contract=('au::detail::pow_mod',)))
+    obs.append(Ob(id='C12.lemmas.gcd', prop='C12', group='C12.lemmas', kind='S', budget=600, body='', prelude='', wrappers=[], inputs=[],
+                  dfcc=dict(tool='lean', text=LM.lean_file(CL.GCD, CL.GCD_PRELUDE)),
+                  contract='Lean 4 + Mathlib accept: ' + '; '.join('%s (%s)' % (l.name, l.doc) for l in CL.GCD)))
+    obs.append(Ob(id='C12.exact.gcd', prop='C12', group='C12', prelude=PRE, wrappers=WRAPS, inputs=[('uint64_t', 'a'), ('uint64_t', 'b')],
+                  body="""
+  vf_ghost[0] = a; vf_ghost[1] = b;
+  uint64_t r = TARGET(a, b);
+  CHECK(r == SPEC_gcd(a, b), "result-is-the-greatest-common-divisor");
+""",
+                  kind='L', promote=False, wrap=True, budget=300, defs=('LL2C_UF_ARITH=1',), needs=('C12.lemmas.gcd',),
+                  dfcc=dict(target=M['gcd'],
+                            contracts={M['gcd']: dict(requires=[], ensures=[], assigns='',
+                                                      loops={0: dict(invariant=['SPEC_gcd(m_a_addr, m_b_addr) == SPEC_gcd(vf_ghost[0], vf_ghost[1])'],
+                                                                     decreases='m_b_addr', assigns='m_a_addr, m_b_addr, m_remainder',
+                                                                     lemmas=[CL.g_step.inst(a='m_a_addr', b='m_b_addr'), CL.g_exit.inst(a='m_a_addr')])})}),
+                  contract='gcd(a,b) returns EXACTLY the greatest common divisor for all 64-bit a, b: loop invariant gcd(a,b) == gcd(a0,b0), no division by zero, terminates '
+                           '(decreases b). Arithmetic by lemmas g_step, g_exit (Lean; Nat.gcd of Mathlib is the specification)',
+                  functions_under_contract=('au::detail::gcd',)))
     # find_prime_factor: every return path hands out a table prime that divides n, n itself (trial division exhausted or is_prime(n)), or a value for which
     # is_prime has just answered true.  is_prime is under its purity contract (a deterministic predicate), find_pollard_rho_factor under `no guarantee at all`.
     fpf = M['find_prime_factor']; ISP = 'f_' + M['is_prime']
